@@ -117,3 +117,59 @@ func VerifH_C19_call_sites() {
 	}
 	check(frames[len(frames)-1], "", len(src)-7, "program frame")
 }
+
+// C19-H5: the error Run returns for an uncaught exception reads 'Name:
+// message' of the thrown value as the script left it (15.11.4.4 layout: only
+// the name when the message is empty and vice versa); a thrown primitive or
+// plain object is reported by its string conversion.
+func VerifH_C19_uncaught_text() {
+	vm := New()
+	nn, mn := verifChoose(3), verifChoose(3)
+	name, msg := verifNondetString(nn), verifNondetString(mn)
+	for i := 0; i < nn; i++ {
+		verifAssume(name[i] >= 0x20 && name[i] < 0x7f)
+	}
+	for i := 0; i < mn; i++ {
+		verifAssume(msg[i] >= 0x20 && msg[i] < 0x7f)
+	}
+	vm.Set("N", name)
+	vm.Set("M", msg)
+	ctor := []string{"Error", "TypeError", "RangeError"}[verifChoose(3)]
+	var script, want string
+	layout := func(n, m string) string {
+		if n == "" {
+			return m
+		}
+		if m == "" {
+			return n
+		}
+		return n + ": " + m
+	}
+	switch verifChoose(6) {
+	case 0:
+		script, want = "throw new "+ctor+"(M)", layout(ctor, msg)
+	case 1:
+		script, want = "var e = new "+ctor+"('orig'); e.name = N; e.message = M; throw e", layout(name, msg)
+	case 2:
+		script, want = "var e = new "+ctor+"(M); e.name = N; throw e", layout(name, msg)
+	case 3:
+		script, want = "function f() { var e = new "+ctor+"('orig'); e.message = M; throw e } f()", layout(ctor, msg)
+	case 4:
+		script, want = "throw M", msg
+	default:
+		script, want = "throw {toString: function () { return M }}", msg
+	}
+	verifLog(script)
+	var err error
+	kind, _ := verifCatch(func() { _, err = vm.Run(script) })
+	verifCover("reached")
+	verifAssert(kind == verifNormal && err != nil, "the uncaught exception comes back from Run as an error")
+	if kind != verifNormal || err == nil {
+		return
+	}
+	verifAssert(err.Error() == want, "the error's text is 'Name: message' of the thrown value as the script left it")
+	// and the runtime is reusable
+	v, e2 := vm.Run("1 + 1")
+	f, _ := v.ToFloat()
+	verifAssert(e2 == nil && f == 2, "later scripts run normally")
+}
